@@ -487,6 +487,12 @@ def r4k_request_complete_means_connect(ctx, rule="R4k"):
             ctx.anchor_lost(rule, f"state switch of {last_seg(b0.impl_self_def or b0.defp)}")
             continue
         sblk, st, field = sw
+        codec_ty = last_seg(b0.impl_self_def or "")
+
+        def is_self(local):
+            """the codec itself: `self` of decode, or the `self` of one of its own methods spliced into the flat view"""
+            ty = fb.local_ty(local).replace("&mut ", "").replace("&", "").strip()
+            return local == 1 or (codec_ty and last_seg(ty.split("<")[0]) == codec_ty)
         item_variants = {"ConnectTcp", "RelayTcp", "RelayUdp"}
         arm = {v: x for v, x in st["arms"]}
         init_t = arm.get(0, st["otherwise"])
@@ -524,7 +530,7 @@ def r4k_request_complete_means_connect(ctx, rule="R4k"):
                     nones.append((x, "the result of calling itself again (which answers need-more on an empty buffer)"))
         for x in sorted(region0):
             for s_ in fb.stmts(x):
-                if s_["k"] not in ("assign", "setdiscr") or s_["p"][0] != 1:
+                if s_["k"] not in ("assign", "setdiscr") or not is_self(s_["p"][0]):
                     continue
                 fs = [e[2] for e in s_["p"][1] if e[0] == "field"]
                 if not fs or fs[0] != field or len([e for e in s_["p"][1] if e[0] in ("field", "downcast")]) != 1:
